@@ -63,7 +63,7 @@ class MultiTargetMCSU2(Gate):
         self.num_controls = num_controls + 1
         self.ctrl_state = ctrl_state
 
-        super().__init__("ldmcsu", self.num_controls, [], "ldmcsu")
+        super().__init__("ldmcsu", num_controls + num_target, [], "ldmcsu")
 
     def _define(self):
         if isinstance(self.unitaries, list):
